@@ -229,7 +229,7 @@ def _norm(e):
     if c == "MemberExpr":
         base = norm(e.kid(0))
         if e.op == "->":
-            base = ("*", base)
+            base = base[1] if base[0] == "&" and len(base) == 2 else ("*", base)      # (&a[i])->m is a[i].m
         return (".", base, e.decl["name"])
     if c == "UnaryOperator":
         k = norm(e.kid(0))
